@@ -4,7 +4,7 @@
    chmod.rs / chown.rs / xattr.rs / acl.rs (+ ext.rs NormalEntryExt::acl) / strip.rs /
    migrate.rs / delete.rs, as repaired (D12 password check, D17 first-seen platform order,
    D18 insert instead of or_insert, acl set on entries without a general ACL, solid-level
-   extra chunks carried over by keep-solid).
+   extra chunks carried over by keep-solid, strip honours its FILES: 4d97c0da).
    Mode parsing/application (chmod.rs) and the ACE / platform text codecs (chunk/acl.rs) are
    imported from CliCodec.v — no duplication.
    Glob matching is not modelled: every command takes `sel : bytes -> bool` on entry names
@@ -232,9 +232,17 @@ Inductive cmd :=
   | CMigrate
   | CDelete.
 
-(* strip and migrate take no patterns: every entry is rewritten *)
+(* migrate takes no patterns: every entry is rewritten *)
 Definition selects_all (c : cmd) : bool :=
-  match c with CStrip _ | CMigrate => true | _ => false end.
+  match c with CMigrate => true | _ => false end.
+(* the selection a command works with.  strip.rs as repaired (commit 4d97c0da):
+   `globs.is_empty() || globs.matches_any(entry.header().path())` — `pna strip ARCHIVE` strips every
+   entry, `pna strip ARCHIVE FILES...` the entries FILES select (they used to be accepted and ignored) *)
+Definition eff_sel (c : cmd) (nfiles : N) (sel : bytes -> bool) : bytes -> bool :=
+  match c with
+  | CStrip _ => fun n => N.eqb nfiles 0 || sel n
+  | _ => sel
+  end.
 
 (* the effect of the command on one selected entry *)
 Definition cmd_entry (c : cmd) (e : lentry) : res (option lentry) :=
@@ -258,4 +266,4 @@ Definition needs_files (c : cmd) : bool :=
 
 Definition run_cmd (keep pw : bool) (c : cmd) (nfiles : N) (sel : bytes -> bool) (a : archive) : res archive :=
   if needs_files c && N.eqb nfiles 0 then Ok a
-  else transform keep pw (cmd_transformer c sel) a.
+  else transform keep pw (cmd_transformer c (eff_sel c nfiles sel)) a.
